@@ -75,6 +75,12 @@ class Run:
                 return
             self._after(w)
             return
+        early = None
+        if c.get('early'):
+            # the consumer is already reading (possibly blocked on the stream) when the fault / terminate / close happens
+            from simos.sync import Thread as SimThread
+            early = SimThread(target=self._consume, args=(w,))
+            early.start()
         if f:
             fired = s.gate_wait('fault', timeout=10.0)
             self.info['fault-fired'] = fired
@@ -88,7 +94,13 @@ class Run:
                 w.close()
             except Exception as e:   # noqa
                 self.info['close-exc'] = type(e).__name__
-        self._consume(w)
+        if early is not None:
+            early.join(700.0)
+            if early.is_alive() and not self.end:
+                self.end = ['hung', None]
+                self.info['blocked'] = s.blocked_report()[:6]
+        else:
+            self._consume(w)
         if self.end and self.end[0] == 'hung':
             return
         self._after(w)
@@ -164,6 +176,8 @@ class Run:
     def judge(self, outcome):
         s, c = self.sim, self.case
         V = []
+        if outcome == 'caller-killed':
+            return []       # the calling process signalled itself (known C04 finding, judged there): nothing can be said about the stream
         if outcome in ('hang', 'time-cap'):
             return [{'clause': 'stream-ends', 'manifestation': 'workload-hang', 'detail': (s.outcome_info or {}).get('blocked')}]
         if self.info.get('ctor'):
@@ -304,7 +318,10 @@ def plan(ctx):
             elif lpts:
                 fault = {'kind': fk, 'thread': tname, 'nline': rng.randrange(1, lpts[-1][3] * scale + 5)}
         cs = mk_case(ctx, kind, items, rng.choice(['next', 'iter', 'mux']), i, fault=fault, poison=poison, policy=pol, knobs=knobs, tag='random', origin_only=unb)
+        if rng.random() < 0.3:
+            cs['early'] = True
         if kind != 'pthread' and rng.random() < 0.12:
+            cs['early'] = False
             cs['fault'] = None
             cs['items'] = list(items) + [{'$swallow': True}]
             cs['forced'] = rng.choice([0.05, 0.3, 1.0])
